@@ -12,6 +12,7 @@ CONSTANTS
   OverlapPer = 2
   Doubling = FALSE
   PairsFirstAll = TRUE
+  GridCols = 0
   GroupsExhaustive = FALSE
   Salt = 0
 INIT Init
